@@ -192,6 +192,37 @@ def variant_store_paths(ctx, variant, argn):
     return b, I.run(b, [P("self"), req])
 
 
+def store_entry(ctx, variant, names):
+    """(body, args, constants) of the MemcStore method a request of `variant` is executed by: the one call handle_request
+    makes into MemcStore for it, with the leading arguments replaced by parameters called `names` and any further argument
+    kept as evaluated there — it has to be a constant (a direction enum, a flag).  The command layer's entry point for the
+    variant, whether the handler uses the public method or a crate-visible helper behind it."""
+    key = "store_entry:%s" % variant
+    if key not in ctx._cache:
+        f = ctx.facts
+        _b, paths = variant_store_paths(ctx, variant, "request")
+        evs = [e for p in paths if not p.cut for e in p.events if e.kind == "call" and e.name.startswith(MEMC + "::")]
+        per_path = [sum(1 for e in p.events if e.kind == "call" and e.name.startswith(MEMC + "::")) for p in paths if not p.cut]
+        if not evs or len(set(e.name for e in evs)) != 1 or any(n != 1 for n in per_path):
+            raise AnchorMissing("the one MemcStore call executing a %s request (calls: %s)" % (variant, sorted(set(e.name.split("::")[-1] for e in evs))))
+        body = f.bodies.get(evs[0].name)
+        if body is None:
+            raise AnchorMissing("the body of %s" % evs[0].name)
+        consts = None
+        for e in evs:
+            extra = []
+            for a in e.args[len(names):]:
+                t = tform(a)
+                if any(isinstance(x, tuple) and x and x[0] in ("param", "field", "call", "cbarg") for x in atoms(t)):
+                    raise AnchorMissing("a constant extra argument of %s for %s (found %s)" % (e.name.split("::")[-1], variant, short(a, 60)))
+                extra.append(a)
+            if consts is not None and [repr(tform(x)) for x in consts] != [repr(tform(x)) for x in extra]:
+                raise AnchorMissing("one set of constant arguments of %s for %s" % (e.name.split("::")[-1], variant))
+            consts = extra
+        ctx._cache[key] = (body, [P(n) for n in names] + consts, consts)
+    return ctx._cache[key]
+
+
 METHOD_VARIANT = {"set": "Set", "get": "Get", "delete": "Delete", "flush": "Flush", "increment": "Increment", "decrement": "Decrement", "add_replace": "Add", "append_prepend": "Append"}
 
 
